@@ -91,6 +91,7 @@ def declare(rep):
     rep.rule("C18.binding-table", "each XML tag is presence-tested, converted and stored in the field of that name (reference table)", floor=31)
     rep.rule("C18.validation-field", "every sign validation tests the field that was just assigned, with the documented comparison", floor=12)
     rep.rule("C18.order-preserved", "cell types and face types are appended in document order", floor=2)
+    rep.rule("C18.type-binding", "a mesh cell whose cell_type_id is k is built with the k-th cell type of the parameter file (positional binding, the convention of doc/parameter_file_doc.md and of the reader's order-preserving lists): simulation_initializer::run hands triangulate_surface cell_type_param_lst[cell_type_id]", floor=1)
     rep.rule("C18.consumers", "each parameter field is read at the site(s) named by the frozen consumer table", floor=25)
     rep.rule("C18.contact-strengths", "the repulsive contact block reads repulsion_strength_, the adhesive one adherence_strength_", floor=1)
 
@@ -358,6 +359,13 @@ def extract_table(prog, fn):
             flows = any(x is r["node"] for e in chain for x in walk(e)) or (h is not None and any(x.get("k") == "DeclRefExpr" and (x.get("ref") or {}).get("did") == h.get("did") for e in chain for x in walk(e)))
             if flows:
                 conv, inf = _conversions(prog, fn, chain)
+                if not inf:
+                    # the INF case written as a branch: this assignment runs when the text is not "inf", and the same field gets
+                    # infinity where it is
+                    from ..model import facts_at
+                    guarded = any('"inf"' in render(at_) for at_, _t in facts_at(fn, fi, a))
+                    other_inf = any(f2 == f and a2 is not a and "infinity" in render(rhs2) for (f2, a2, rhs2, _c2) in assigns)
+                    inf = guarded and other_inf
                 row["assign"].append((f, conv[0] if len(conv) == 1 else (None if not conv else "+".join(conv)), inf, a))
         if r["wrapper"]:
             row["presence"] = True
@@ -440,6 +448,7 @@ def run(rep, prog, tier):
                     rep.violation("C18.validation-field", prog, fn, r["node"], "<%s>: missing validation %s %s %s" % (tag, field, op, rhs),
                                   "after reading <%s> the reader must throw when %s %s %s; found validations %s" % (tag, field, op, rhs, sorted(set(got))))
     order_preserved(rep, prog)
+    type_binding(rep, prog)
     consumers(rep, prog)
     contact_strengths(rep, prog)
 
@@ -481,6 +490,38 @@ def order_preserved(rep, prog):
             rep.ok("C18.order-preserved", prog, fn, None, "%s types: sibling iteration in document order + push_back" % k)
         else:
             rep.violation("C18.order-preserved", prog, fn, None, "%s types are not appended in document order" % k, "read_biomechanical_parameters must iterate the <%s_type> elements with NextSiblingElement and append each at the end of the list: the order in the file defines the type indices" % k)
+
+
+def type_binding(rep, prog):
+    from ..model import expand
+    fn = prog.fn("simulation_initializer::run")
+    plist = fn["params"][0]
+    calls = [n for n in walk(fn["body"]) if is_call(n) and n.get("callee") == "simulation_initializer::triangulate_surface"]
+    if not calls:
+        raise AnalysisBroken("simulation_initializer::run: call of triangulate_surface not found")
+    for c in calls:
+        a = call_args(c)
+        e = strip(expand(fn, a[2])) if len(a) >= 3 else {}
+        while e.get("k") in ("ParenExpr", "ImplicitCastExpr", "MaterializeTemporaryExpr", "CXXBindTemporaryExpr", "CXXConstructExpr") and len([x for x in e.get("c", []) if isinstance(x, dict)]) == 1:
+            e = strip([x for x in e["c"] if isinstance(x, dict)][0])
+        positional = False
+        if e.get("k") == "CXXOperatorCallExpr" and e.get("op") == "[]" and len(e.get("c", [])) == 3:
+            o = strip(e["c"][1])
+            if o.get("k") == "DeclRefExpr" and (o.get("ref") or {}).get("did") == plist["did"]:
+                idx_txt = render(expand(fn, e["c"][2]))
+                if "cell_type_id_lst" in idx_txt or "get_cell_types" in idx_txt:
+                    positional = True
+        if e.get("k") == "CXXMemberCallExpr" and e.get("callee", "").endswith("::at"):
+            o = strip(call_obj(e) or {})
+            if o.get("k") == "DeclRefExpr" and (o.get("ref") or {}).get("did") == plist["did"]:
+                positional = True
+        if positional:
+            rep.ok("C18.type-binding", prog, fn, c, "triangulate_surface(.., %s)" % short(e, 50))
+        elif any(is_call(x) and x.get("callee", "") in ("std::find_if", "std::find") for d_ in def_chain(fn, a[2], depth=5) for x in walk(d_)) or e.get("k") == "UnaryOperator":
+            rep.violation("C18.type-binding", prog, fn, c, "cell type looked up by value instead of by position",
+                          "simulation_initializer::run no longer takes cell_type_param_lst[cell_type_id] (the k-th cell type of the parameter file for a mesh cell of type id k) but searches the list (%s): with cell types whose position differs from their global id - several sets of the same class, or types listed in another order - a cell gets the parameters (class, densities, moduli, tensions) of another type or is rejected" % short(a[2], 60))
+        else:
+            raise AnalysisBroken("simulation_initializer::run: the cell type handed to triangulate_surface (%s) is in a form this checker does not decide" % short(a[2], 60))
 
 
 def consumers(rep, prog):
